@@ -1,9 +1,146 @@
-import Iauthd.Module.Spec
+import Iauthd.Module.Proofs
 /-
-  C20 — module load and unload respect declared dependencies.   (work in progress)
+  C20 — module load and unload respect declared dependencies.
+
+  "For every acyclic dependency graph among the modules named in the configuration or
+   pulled in by others, each module is constructed once, its dependencies are fully
+   constructed before it finishes constructing, its post-init runs exactly once and
+   after those of everything it depends on (also when a module is reachable along two
+   paths), and at shutdown its destructor runs before the destructors of the modules
+   it depends on.  A genuine dependency cycle or an unloadable module aborts start-up
+   with an error instead of running partially initialised."
+
+  Setting of every theorem (no bound on the size of the graph):
+    `G : α → List α`   what each module's constructor declares (order and duplicates kept),
+    `ok : α → Bool`    which names `dlopen` can load,
+    `L`                the configuration list,
+    `lt`               the order of the `modules` set — *any* function: nothing below
+                       depends on the iteration order,
+    `U`                a finite universe of names containing `L` and closed under `G`
+                       (`Closed G U L`), and `fuel > U.length` for the recursion.
+  `run lt G ok fuel L` is the model of the REPAIRED daemon (F20 fixed: `dfsFixed`);
+  `runPinned` is the pinned `module_dfs`, for which the property fails
+  (`pinned_diamond_aborts`, `pinned_triangle_aborts`, `pinned_fails_judge`).
+
+  `Loaded G L m`   : `m` is named in the configuration or pulled in by others;
+  `Reach1 G m m`   : `m` lies on a dependency cycle;
+  `NoCycle G L`    : no loaded module lies on a cycle;
+  `Before ev a b`  : in the chronological log, `a` occurs before an occurrence of `b`.
 -/
 namespace Iauthd.Properties.C20
 open Iauthd.Module
+
+section
+variable {α : Type} [DecidableEq α] (lt : α → α → Bool) (G : α → List α) (ok : α → Bool)
+variable {U L : List α} {fuel : Nat}
+
+/-- Each loaded module is constructed exactly once (one `ctor-begin`, one `ctor-end`, in
+    this order); a module that is not loaded is never constructed. -/
+theorem ctor_once (hcl : Closed G U L) (hfuel : U.length < fuel) (hnc : NoCycle G L)
+    (hok : ∀ m, Loaded G L m → ok m = true) (m : α) :
+    let ev := (run lt G ok fuel L).events
+    (Loaded G L m → ev.count (.ctorBegin m) = 1 ∧ ev.count (.ctorEnd m) = 1 ∧
+        Before ev (.ctorBegin m) (.ctorEnd m)) ∧
+    (¬ Loaded G L m → ev.count (.ctorBegin m) = 0 ∧ ev.count (.ctorEnd m) = 0) := by
+  have h := run_acyclic lt hcl hfuel hnc hok
+  refine ⟨fun hm => ?_, fun hm => ?_⟩
+  · rw [h.count, h.count, if_pos ((h.begun_iff m).mpr hm), if_pos (h.full m hm).1]
+    exact ⟨rfl, rfl, h.before_begin_end hm⟩
+  · obtain ⟨h1, h2, _, _⟩ := h.not_loaded hm
+    rw [h.count, h.count, if_neg h1, if_neg h2]
+    exact ⟨rfl, rfl⟩
+
+/-- A module's dependencies are fully constructed before it finishes constructing. -/
+theorem deps_before_ctor_end (hcl : Closed G U L) (hfuel : U.length < fuel) (hnc : NoCycle G L)
+    (hok : ∀ m, Loaded G L m → ok m = true) (m d : α) (hm : Loaded G L m) (hd : d ∈ G m) :
+    Before (run lt G ok fuel L).events (.ctorEnd d) (.ctorEnd m) :=
+  (run_acyclic lt hcl hfuel hnc hok).before_ctorEnd hm hd
+
+/-- Start-up succeeds; post-init runs exactly once per loaded module, after the module is
+    constructed and after the post-init of every dependency — also when a module is
+    reachable along two paths (this is what fails on the pinned tree, F20). -/
+theorem postinit_once_after_deps (hcl : Closed G U L) (hfuel : U.length < fuel) (hnc : NoCycle G L)
+    (hok : ∀ m, Loaded G L m → ok m = true) :
+    let o := run lt G ok fuel L
+    o.status = 0 ∧ ∀ m,
+      (Loaded G L m → o.events.count (.postInit m) = 1 ∧ Before o.events (.ctorEnd m) (.postInit m) ∧
+          ∀ d, d ∈ G m → Before o.events (.postInit d) (.postInit m)) ∧
+      (¬ Loaded G L m → o.events.count (.postInit m) = 0) := by
+  have h := run_acyclic lt hcl hfuel hnc hok
+  refine ⟨h.status, fun m => ⟨fun hm => ?_, fun hm => ?_⟩⟩
+  · rw [h.count, if_pos (h.full m hm).2.1]
+    exact ⟨rfl, h.before_end_postInit hm, fun d hd => h.before_postInit hm hd⟩
+  · rw [h.count, if_neg (h.not_loaded hm).2.2.1]
+
+/-- At shutdown every loaded module is destroyed exactly once, before the modules it
+    depends on. -/
+theorem dtor_before_deps (hcl : Closed G U L) (hfuel : U.length < fuel) (hnc : NoCycle G L)
+    (hok : ∀ m, Loaded G L m → ok m = true) (m : α) :
+    let ev := (run lt G ok fuel L).events
+    (Loaded G L m → ev.count (.dtor m) = 1 ∧ ∀ d, d ∈ G m → Before ev (.dtor m) (.dtor d)) ∧
+    (¬ Loaded G L m → ev.count (.dtor m) = 0) := by
+  have h := run_acyclic lt hcl hfuel hnc hok
+  refine ⟨fun hm => ?_, fun hm => ?_⟩
+  · rw [h.count, if_pos (h.full m hm).2.2]
+    exact ⟨rfl, fun d hd => h.before_dtor hm hd⟩
+  · rw [h.count, if_neg (h.not_loaded hm).2.2.2]
+
+/-- A genuine dependency cycle among the loaded modules aborts start-up (non-zero exit
+    status, and not because the model ran out of fuel); no module that lies on a cycle is
+    ever post-initialised — the latter for every graph. -/
+theorem cycle_aborts (hcl : Closed G U L) (hfuel : U.length < fuel)
+    (hcyc : ∃ c, Loaded G L c ∧ Reach1 G c c) :
+    let o := run lt G ok fuel L
+    o.status ≠ 0 ∧ o.why ≠ Why.fuel ∧ ∀ c, Reach1 G c c → Event.postInit c ∉ o.events := by
+  have h := run_any (ok := ok) lt hcl hfuel
+  refine ⟨?_, h.nofuel, h.nocycpi⟩
+  intro h0
+  obtain ⟨c, hc, hcc⟩ := hcyc
+  exact (h.zero_imp h0).1 c hc hcc
+
+/-- An unloadable module among those pulled in aborts start-up with `LOG_FATAL` (exit
+    status 1, "Unable to load module x") before any post-init or destructor runs. -/
+theorem unloadable_aborts (hcl : Closed G U L) (hfuel : U.length < fuel)
+    (hbad : ∃ m, Loaded G L m ∧ ok m = false) :
+    let o := run lt G ok fuel L
+    o.status = 1 ∧ (∃ x, o.why = Why.unloadable x ∧ ok x = false) ∧
+      ∀ m, Event.postInit m ∉ o.events ∧ Event.dtor m ∉ o.events :=
+  (run_any (ok := ok) lt hcl hfuel).unl hbad
+
+/-- Conversely, a start-up that succeeds had no cycle and no unloadable module to deal with. -/
+theorem success_only_if_clean (hcl : Closed G U L) (hfuel : U.length < fuel)
+    (h0 : (run lt G ok fuel L).status = 0) : NoCycle G L ∧ ∀ m, Loaded G L m → ok m = true :=
+  (run_any (ok := ok) lt hcl hfuel).zero_imp h0
+
+/-- The fuel of the model is enough for every graph: load recursion, post-init walk and both
+    `module_close_all` calls of the exit path end by themselves. -/
+theorem fuel_suffices (hcl : Closed G U L) (hfuel : U.length < fuel) :
+    (run lt G ok fuel L).why ≠ Why.fuel :=
+  (run_any (ok := ok) lt hcl hfuel).nofuel
+
+/-- The acyclic case in the checker's own words. -/
+theorem C20_acyclic (hcl : Closed G U L) (hfuel : U.length < fuel) (hnc : NoCycle G L)
+    (hok : ∀ m, Loaded G L m → ok m = true) :
+    let o := run lt G ok fuel L
+    o.status = 0 ∧ wellOrdered G o.events = true ∧ completeRun L o.events = true ∧
+      constructedOk ok o.events = true := by
+  have h := run_acyclic lt hcl hfuel hnc hok
+  exact ⟨h.status, h.checker hok⟩
+
+/-- Headline: on every graph the repaired daemon passes the judge — the very predicate the
+    check evaluates on the C code's observed exit status and event log. -/
+theorem C20_judge (hcl : Closed G U L) (hfuel : U.length < fuel) :
+    judge G ok U L (run lt G ok fuel L).status (run lt G ok fuel L).events = true :=
+  run_judge lt hcl hfuel
+
+/-- The judge's executable reading of "must abort" is the mathematical one. -/
+theorem judge_demand_exact (hcl : Closed G U L) :
+    mustAbort G ok U L = true ↔ ∃ m, Loaded G L m ∧ (ok m = false ∨ Reach1 G m m) :=
+  mustAbort_iff hcl
+
+end
+
+/-! ### the hypotheses are satisfiable; the pinned code fails -/
 
 /-- `a→b,c; b→d; c→d` with a=0 … d=3 -/
 def diamond : Nat → List Nat
@@ -18,17 +155,71 @@ def triangle : Nat → List Nat
   | 1 => [2]
   | _ => []
 
+/-- `a→b; b→a` -/
+def twoCycle : Nat → List Nat
+  | 0 => [1]
+  | 1 => [0]
+  | _ => []
+
 def natLt (a b : Nat) : Bool := decide (a < b)
+def allOk : Nat → Bool := fun _ => true
 
+theorem diamond_closed : Closed diamond [0, 1, 2, 3] [0] := by
+  refine ⟨by simp, ?_⟩
+  intro m hm d hd
+  simp at hm
+  rcases hm with rfl | rfl | rfl | rfl <;> simp [diamond] at hd <;> (try rcases hd with rfl | rfl) <;> simp [*]
+
+theorem diamond_noCycle : NoCycle diamond [0] := by
+  apply noCycle_of_rank (fun n => 10 - n)
+  intro a d hd
+  match a, hd with
+  | 0, hd => simp [diamond] at hd; omega
+  | 1, hd => simp [diamond] at hd; omega
+  | 2, hd => simp [diamond] at hd; omega
+  | n + 3, hd => simp [diamond] at hd
+
+/-- non-vacuity of the acyclic theorems: the diamond satisfies every hypothesis … -/
+example : (run natLt diamond allOk 5 [0]).status = 0 ∧
+    ∀ m, Loaded diamond [0] m → (run natLt diamond allOk 5 [0]).events.count (.postInit m) = 1 :=
+  have h := postinit_once_after_deps natLt diamond allOk (fuel := 5) diamond_closed (by decide)
+    diamond_noCycle (fun _ _ => rfl)
+  ⟨h.1, fun m hm => ((h.2 m).1 hm).1⟩
+
+/-- … and the repaired model really runs it (`d` is reachable along two paths). -/
+example : (run natLt diamond allOk 5 [0]).events =
+    [.ctorBegin 0, .ctorBegin 1, .ctorBegin 3, .ctorEnd 3, .ctorEnd 1, .ctorBegin 2, .ctorEnd 2, .ctorEnd 0,
+     .postInit 3, .postInit 1, .postInit 2, .postInit 0, .dtor 0, .dtor 1, .dtor 2, .dtor 3] := by decide
+
+/-- non-vacuity of `cycle_aborts` -/
+example : ∃ c, Loaded twoCycle [0] c ∧ Reach1 twoCycle c c :=
+  ⟨0, ⟨0, by simp, Reach.refl 0⟩, ⟨1, Reach.tail (Reach.refl 0) (by simp [twoCycle]), by simp [twoCycle]⟩⟩
+
+example : (run natLt twoCycle allOk 3 [0]).status = 1 ∧ (run natLt twoCycle allOk 3 [0]).why = .loop 0 1 := by
+  decide
+
+/-- non-vacuity of `unloadable_aborts` -/
+example : ∃ m, Loaded diamond [0] m ∧ (fun n => decide (n ≠ 3)) m = false :=
+  ⟨3, ⟨0, by simp, Reach.tail (Reach.tail (Reach.refl 0) (by simp [diamond] : 1 ∈ diamond 0)) (by simp [diamond])⟩,
+   by decide⟩
+
+/-- F20 on the pinned tree: the diamond is reported as a dependency loop `a -> c`. -/
 theorem pinned_diamond_aborts :
-    (runPinned natLt diamond (fun _ => true) 5 [0]).status = 1 ∧
-    (runPinned natLt diamond (fun _ => true) 5 [0]).why = .loop 0 2 ∧
-    Event.postInit 0 ∉ (runPinned natLt diamond (fun _ => true) 5 [0]).events := by decide
+    (runPinned natLt diamond allOk 5 [0]).status = 1 ∧
+    (runPinned natLt diamond allOk 5 [0]).why = .loop 0 2 ∧
+    Event.postInit 0 ∉ (runPinned natLt diamond allOk 5 [0]).events := by decide
 
+/-- … and the triangle makes `module_load_list` return -1: `main` exits with status 1. -/
 theorem pinned_triangle_aborts :
-    (runPinned natLt triangle (fun _ => true) 4 [0]).status = 1 ∧
-    Event.postInit 0 ∉ (runPinned natLt triangle (fun _ => true) 4 [0]).events := by decide
+    (runPinned natLt triangle allOk 4 [0]).status = 1 ∧
+    Event.postInit 0 ∉ (runPinned natLt triangle allOk 4 [0]).events := by decide
 
-example : (run natLt diamond (fun _ => true) 5 [0]).status = 0 := by decide
+/-- The judge rejects the pinned behaviour on both graphs (and accepts the repaired one by
+    `C20_judge`). -/
+theorem pinned_fails_judge :
+    judge diamond allOk [0, 1, 2, 3] [0] (runPinned natLt diamond allOk 5 [0]).status
+      (runPinned natLt diamond allOk 5 [0]).events = false ∧
+    judge triangle allOk [0, 1, 2] [0] (runPinned natLt triangle allOk 4 [0]).status
+      (runPinned natLt triangle allOk 4 [0]).events = false := by decide
 
 end Iauthd.Properties.C20
